@@ -168,6 +168,17 @@ def audit(prop_id: str) -> dict:
     return res
 
 
+def leanchecker(prop_id: str) -> dict:
+    """Thorough tier: re-check the compiled theorem module (and everything it imports from this project)
+    with the toolchain's independent kernel re-checker."""
+    try:
+        p = subprocess.run(["lake", "env", "leanchecker", f"AttrsModel.Properties.{prop_id}"], cwd=LEAN, env=_env(),
+                           capture_output=True, text=True, timeout=1500)
+    except subprocess.TimeoutExpired:
+        return {"ran": True, "ok": False, "log": "leanchecker timed out"}
+    return {"ran": True, "ok": p.returncode == 0, "log": (p.stdout + p.stderr)[-2000:]}
+
+
 def drive(lines: list[str]) -> list[dict]:
     """Send request lines to the compiled driver, return parsed replies (same length)."""
     if not lines:
